@@ -6,6 +6,8 @@ framing, runt packets, mssim trailer, option blocks); container faults (tear ins
 characters incl. the ones Python's int() accepts, lower-case in a swtpm log); seeded short strings over
 a small alphabet for the hex scanner.  Independent reference readers recover the carried bytes.
 """
+import re
+
 from .. import medium, model, oracle, real
 from ..runner import HarnessError, Result
 from . import common
@@ -77,8 +79,21 @@ def make_case(i, rng, tier):
         blob = medium.write_hex(data, rng, style="noisy" if (inp["label"].startswith("long-stream") and rng.random() < 0.6) else None)
     elif container == "swtpm":
         blob = medium.write_swtpm_log(data, bounds, rng)
+        if rng.random() < 0.1:
+            # a structural token of the log (a section marker, the first digit of a pair) put right at / next to a
+            # multiple of a reader's block size by free text in front of the first section
+            marks = [m.start() for m in re.finditer(rb"Ctrl|SWTPM_IO", blob)][1:]
+            toks = marks if (marks and rng.random() < 0.6) else marks + [e - 2 for e in medium.ref_swtpm_pair_ends(blob)[::7]]
+            if toks:
+                B = rng.choice((4096, 8192, 65536, 65536))
+                pos = rng.choice(toks)
+                padn = (B - 1 + rng.choice((0, 0, 0, 1, 2)) - pos) % B
+                text = (b"# " + b"x" * 77 + b"\n") * (padn // 80 + 1)
+                blob = (text[:padn - 1] + b"\n" if padn else b"") + blob
+                aligned = B
     else:
-        blob, meta = medium.write_pcapng([data[a:b] for a, b in zip(bounds, bounds[1:])], rng)
+        blob, meta = medium.write_pcapng([data[a:b] for a, b in zip(bounds, bounds[1:])], rng,
+                                         pad=rng.choice((30000, 62000, 65000, 65535, 70000)) if rng.random() < 0.05 else 0)
     if container == "hex" and not mfaults and inp["label"].startswith("long-stream") and len(blob) > 4200 and rng.random() < 0.5:
         # torn write at a block boundary: the text is cut at an exact multiple of a buffered reader's block size, inside
         # a pair (odd number of digits)
